@@ -20,12 +20,12 @@ def main():
         if os.path.exists(os.path.join(VERIF, "harness", pkg, "Cargo.toml")):
             try:
                 ctx.harness(pkg)
-            except FrameworkError as e:
+            except Exception as e:
                 print(e)
                 rc = 1
     try:
         ctx.erg_bin()
-    except FrameworkError as e:
+    except Exception as e:
         print(e)
         rc = 1
     # 3. extracted models
@@ -33,7 +33,7 @@ def main():
         if os.path.exists(os.path.join(COQ, theme, "Extract.v")):
             try:
                 ctx.model(theme)
-            except FrameworkError as e:
+            except Exception as e:
                 print(e)
                 rc = 1
     print("setup done; problems=%d (a problem in one theme does not stop the others: every check rebuilds what it needs)" % rc)
